@@ -146,12 +146,15 @@ fn worker(args: &[String]) -> i32 {
     let mut samples_sent = 0;
     while idx < ncases {
         let _ = writeln!(proto, "S {idx}");
-        log::set_max_level(if logging_for_case(idx) { log::LevelFilter::Trace } else { log::LevelFilter::Off });
-        if logging_for_case(idx) {
-            stats.inc("K2_cases_run_with_the_log_backend_at_trace_level");
-        }
         let mut rng = Rng::for_case(seed, domain(prop), idx);
         let case = world.gen(&mut rng, thorough);
+        // K2, small cases only: html5ever's debug log dumps the whole token at every step, which
+        // is quadratic on a 100 KB text token split character by character (40 s for one case)
+        let log_on = logging_for_case(idx) && case.to_string().len() < 16 * 1024;
+        log::set_max_level(if log_on { log::LevelFilter::Trace } else { log::LevelFilter::Off });
+        if log_on {
+            stats.inc("K2_cases_run_with_the_log_backend_at_trace_level");
+        }
         let res = std::panic::catch_unwind(std::panic::AssertUnwindSafe(|| world.check(&case, &mut stats, &[])));
         match res {
             Ok((info, Ok(()))) => {
@@ -876,7 +879,9 @@ fn replay_inner(args: &[String]) -> i32 {
     install_panic_hook();
     // a replay runs with the log backend at its most verbose (a superset of what any case saw)
     install_logger();
-    log::set_max_level(log::LevelFilter::Trace);
+    // (small cases only, as in the workers)
+    let small = std::fs::metadata(&args[0]).map(|m| m.len() < 24 * 1024).unwrap_or(true);
+    log::set_max_level(if small { log::LevelFilter::Trace } else { log::LevelFilter::Off });
     let path = &args[0];
     let text = match std::fs::read_to_string(path) {
         Ok(t) => t,
